@@ -24,12 +24,17 @@ pub struct Case {
     pub ops: Vec<TOp>,
     /// for 3 threads in the quick tier: which sample of the 1680 interleavings to run
     pub sample_seed: u64,
+    /// Some: the logger is built with a specification file; while the threads run, the file is
+    /// replaced by this specification and flexi_logger's watcher thread submits it (one more
+    /// participant of the interleaving, taken under control when it arrives at its first point)
+    #[serde(default)]
+    pub watcher: Option<MSpec>,
 }
 
 pub struct P;
 
-/// all distinct orderings of the multiset {0 x 3, 1 x 3, ..., (k-1) x 3}
-fn interleavings(k: usize) -> Vec<Vec<usize>> {
+/// all distinct orderings of the multiset {0 x steps, 1 x steps, ..., (k-1) x steps}
+fn interleavings(k: usize, steps: usize) -> Vec<Vec<usize>> {
     fn rec(left: &mut Vec<usize>, cur: &mut Vec<usize>, out: &mut Vec<Vec<usize>>) {
         if left.iter().all(|c| *c == 0) {
             out.push(cur.clone());
@@ -46,8 +51,26 @@ fn interleavings(k: usize) -> Vec<Vec<usize>> {
         }
     }
     let mut out = Vec::new();
-    rec(&mut vec![3; k], &mut Vec::new(), &mut out);
+    rec(&mut vec![steps; k], &mut Vec::new(), &mut out);
     out
+}
+
+/// like c02::build_logger, but with a specification file and flexi_logger's watcher thread
+fn build_logger_with_specfile(spec: &MSpec, writers: &[(String, u8)], specfile: &std::path::Path) -> Result<super::c02::Built, String> {
+    use flexi_logger::{ErrorChannel, Logger};
+    let (prim, prim_rec) = Recorder::new(5);
+    let mut l = Logger::with(spec.build_with_builder())
+        .log_to_writer(Box::new(prim))
+        .error_channel(ErrorChannel::DevNull)
+        .panic_if_error_channel_is_broken(false);
+    let mut ws = Vec::new();
+    for (name, ceil) in writers {
+        let (w, r) = Recorder::new(*ceil);
+        l = l.add_writer(name.clone(), Box::new(w));
+        ws.push((name.clone(), *ceil, r));
+    }
+    let (log, handle) = l.build_with_specfile(specfile).map_err(|e| format!("build_with_specfile: {e:?}"))?;
+    Ok(super::c02::Built { log: std::sync::Arc::from(log), handle, primary: prim_rec, writers: ws, filter_seen: None })
 }
 
 struct RunResult {
@@ -72,18 +95,33 @@ fn submitted(op: &TOp, pushed_over: &MSpec) -> Option<MSpec> {
 }
 
 fn run_interleaving(case: &Case, order: &[usize], targets: &[String]) -> Result<RunResult, String> {
-    let b = build_logger(&case.initial, false, &case.writers, false)?;
+    let sc = crate::util::Scratch::new("c12");
+    let specfile = sc.sub("spec/logspec.toml");
+    let b = if case.watcher.is_some() { build_logger_with_specfile(&case.initial, &case.writers, &specfile)? } else { build_logger(&case.initial, false, &case.writers, false)? };
     let mut main_handle = b.handle.clone();
     main_handle.push_temp_spec(case.pushed.build_with_builder());
     let k = case.ops.len();
+    let watcher_id = crate::hooks::ADOPTED_BASE;
     h().reset_points();
     {
         let mut pk = h().park.lock().unwrap();
         for i in 0..k {
             pk.controlled.insert(i as u64 + 1);
         }
+        if case.watcher.is_some() {
+            pk.controlled.insert(watcher_id);
+            pk.adopt = Some(watcher_id);
+        }
     }
     h().set_mode(MODE_PARK);
+    if let Some(ws) = &case.watcher {
+        // replace the file in one step (written next to it, then renamed into place)
+        let mut buf = Vec::new();
+        ws.build_with_builder().to_toml(&mut buf).map_err(|e| format!("to_toml: {e:?}"))?;
+        let tmp = sc.sub("spec-new.toml");
+        std::fs::write(&tmp, &buf).map_err(|e| format!("write specfile: {e}"))?;
+        std::fs::rename(&tmp, &specfile).map_err(|e| format!("rename specfile: {e}"))?;
+    }
     let mut joins = Vec::new();
     for (i, op) in case.ops.iter().enumerate() {
         let mut hd = main_handle.clone();
@@ -111,6 +149,22 @@ fn run_interleaving(case: &Case, order: &[usize], targets: &[String]) -> Result<
     // scheduler
     let hh = h();
     let mut pending: std::collections::VecDeque<usize> = order.iter().copied().collect();
+    let id_of = |w: usize| -> u64 { if w >= k { watcher_id } else { w as u64 + 1 } };
+    if case.watcher.is_some() {
+        // the watcher thread arrives about a second after the file changed (debounce time):
+        // nothing is granted before it is there, otherwise it would always come last
+        let deadline = Instant::now() + Duration::from_secs(6);
+        let mut pk = hh.park.lock().unwrap_or_else(|p| p.into_inner());
+        while !pk.parked.contains_key(&watcher_id) && Instant::now() < deadline {
+            let (g, _) = hh.park_cv.wait_timeout(pk, Duration::from_millis(20)).unwrap_or_else(|p| p.into_inner());
+            pk = g;
+        }
+        if !pk.parked.contains_key(&watcher_id) {
+            // the watcher did not come (no event): release its slot, the run goes on without it
+            pk.controlled.remove(&watcher_id);
+            pk.adopt = None;
+        }
+    }
     let t0 = Instant::now();
     loop {
         let mut pk = hh.park.lock().unwrap_or_else(|p| p.into_inner());
@@ -133,12 +187,12 @@ fn run_interleaving(case: &Case, order: &[usize], targets: &[String]) -> Result<
         }
         // wanted thread: first pending entry whose thread is still controlled
         while let Some(w) = pending.front() {
-            if pk.controlled.contains(&(*w as u64 + 1)) {
+            if pk.controlled.contains(&id_of(*w)) {
                 break;
             }
             pending.pop_front();
         }
-        let want = pending.front().map(|w| *w as u64 + 1);
+        let want = pending.front().map(|w| id_of(*w));
         let mut chosen = None;
         if let Some(w) = want {
             // wait (bounded) for the wanted thread to arrive at its next point
@@ -233,7 +287,7 @@ impl Property for P {
     const ID: &'static str = "C12";
     const LEVEL: &'static str = "exploration";
     fn rule() -> String {
-        "systematic interleavings at hook granularity: 2-3 threads, each performing one of set_new_spec | parse_new_spec | push_temp_spec | pop_temp_spec on a clone of the handle with generated specs of different maximum levels and module sets; controlled threads are parked at the three schedule points of every specification update (enter, between the spec update and the max-level update, exit) and a scheduler thread grants one step at a time; for 2 threads all 20 orderings of the 6 steps are executed per case, for 3 threads all 1680 (thorough) or a seed-chosen 120 (quick); after all calls returned: Log::enabled over the level x target grid must equal the reference matcher of exactly one submitted specification as a whole, and log::max_level must admit everything this specification (and every additional writer) accepts. Non-trivial = an executed interleaving in which two calls overlap in time (one thread passes its enter point while the other is between its enter and exit points) with specs of different maximum level; distinct = distinct serialized case; sub_evaluations = interleavings executed".into()
+        "systematic interleavings at hook granularity: 2-3 threads, each performing one of set_new_spec | parse_new_spec | push_temp_spec | pop_temp_spec on a clone of the handle with generated specs of different maximum levels and module sets, in 6 % of the cases plus flexi_logger's own specfile watcher thread (logger built with build_with_specfile, the file replaced while the threads run; the watcher is taken under control when it arrives at its first point); controlled threads are parked at the three schedule points of every specification update (enter, between the spec update and the max-level update, exit) and, with an additional writer, at a fourth point that belongs to the harness (the recording writer's max_log_level(), which flexi_logger calls between taking over the specification and setting the facade's level: 70 orderings for 2 threads) and a scheduler thread grants one step at a time; for 2 threads all 20 orderings of the 6 steps are executed per case, for 3 threads all 1680 (thorough) or a seed-chosen 120 (quick); after all calls returned: Log::enabled over the level x target grid must equal the reference matcher of exactly one submitted specification as a whole, and log::max_level must admit everything this specification (and every additional writer) accepts. Non-trivial = an executed interleaving in which two calls overlap in time (one thread passes its enter point while the other is between its enter and exit points) with specs of different maximum level; distinct = distinct serialized case; sub_evaluations = interleavings executed".into()
     }
     fn fixed_exhaustive_note() -> Option<String> {
         Some("per 2-thread case all 20 interleavings of the 2x3 schedule points; per 3-thread case in the thorough tier all 1680".into())
@@ -241,7 +295,7 @@ impl Property for P {
     fn assumptions() -> Vec<String> {
         vec![
             "interleavings are controlled at the granularity of the three hook points; what happens between two points runs uninterrupted on one thread while the others are parked".into(),
-            "the specfile watcher thread is not started; it calls the same WritersHandle::set_new_spec that the handle clones call".into(),
+            "the specfile watcher takes part in about 6 % of the cases (each of its runs waits about a second for the debounced file event); only a seed-chosen handful of orderings is executed for those".into(),
         ]
     }
     fn cases(tier: Tier) -> u64 {
@@ -270,23 +324,56 @@ impl Property for P {
             prop::collection::btree_map(Just("W1".to_string()), 0u8..6, 0..2),
             prop::bool::weighted(three).prop_flat_map(move |t| prop::collection::vec(op.clone(), if t { 3..4 } else { 2..3 })),
             any::<u64>(),
+            prop::option::weighted(if std::env::var("FLV_C12_WATCHER_ONLY").is_ok() { 0.99 } else { 0.06 }, mspec_strat()),
         )
-            .prop_map(|(initial, pushed, writers, ops, sample_seed)| Case {
-                initial,
-                pushed,
-                writers: writers.into_iter().collect(),
-                ops,
-                sample_seed,
+            .prop_map(|(initial, pushed, writers, ops, sample_seed, watcher)| {
+                // with the watcher: at most two handle threads next to it
+                let ops = if watcher.is_some() { ops.into_iter().take(2).collect() } else { ops };
+                Case { initial, pushed, writers: writers.into_iter().collect(), ops, sample_seed, watcher }
             })
             .boxed()
     }
 
     fn run(case: &Case) -> Outcome {
         let mut out = Outcome::ok();
-        let k = case.ops.len();
-        let mut orders = interleavings(k);
+        let k = case.ops.len() + usize::from(case.watcher.is_some());
+        // schedule points per call: enter, updated, exit, and one per additional writer (the
+        // harness-owned point in its max_log_level())
+        let steps = 3 + case.writers.len();
+        let mut orders = if k >= 3 && steps > 3 {
+            // 34 650 orderings: generated by sampling below
+            Vec::new()
+        } else {
+            interleavings(k, steps)
+        };
+        if orders.is_empty() {
+            let mut x = crate::util::mix(case.sample_seed, 0xABCD);
+            for _ in 0..(if std::env::var("FLV_TIER").is_ok_and(|t| t == "thorough") { 1680 } else { 120 }) {
+                let mut left = vec![steps; k];
+                let mut o = Vec::new();
+                while left.iter().any(|c| *c > 0) {
+                    x = crate::util::mix(x, 0x77);
+                    let avail: Vec<usize> = (0..k).filter(|i| left[*i] > 0).collect();
+                    let pick = avail[(x % avail.len() as u64) as usize];
+                    left[pick] -= 1;
+                    o.push(pick);
+                }
+                orders.push(o);
+            }
+        }
         let thorough = std::env::var("FLV_TIER").is_ok_and(|t| t == "thorough");
-        if k >= 3 && !thorough {
+        if case.watcher.is_some() {
+            // every run waits about a second for the watcher: a seed-chosen handful of orders
+            let n = orders.len();
+            let mut picked = Vec::new();
+            let mut x = case.sample_seed;
+            for _ in 0..(if thorough { 6 } else { 3 }) {
+                x = crate::util::mix(x, 0x51ED);
+                picked.push(orders[(x % n as u64) as usize].clone());
+            }
+            orders = picked;
+            out.class("specfile-watcher");
+        } else if k >= 3 && !thorough {
             // deterministic sample of 120 of the 1680
             let n = orders.len();
             let mut picked = Vec::new();
@@ -298,9 +385,13 @@ impl Property for P {
             orders = picked;
         }
         out.class(if k == 2 { "2-threads" } else { "3-threads" });
+        let k = case.ops.len();
         // candidates: every specification submitted by an operation; if none, the state before
         let cands: Vec<MSpec> = {
             let mut v: Vec<MSpec> = case.ops.iter().filter_map(|o| submitted(o, &case.initial)).collect();
+            if let Some(ws) = &case.watcher {
+                v.push(ws.clone());
+            }
             if v.is_empty() {
                 v.push(case.pushed.clone());
             }
@@ -361,6 +452,17 @@ impl Property for P {
                     ),
                 );
                 break;
+            }
+            if r.executed.iter().any(|(i, _)| *i >= crate::hooks::ADOPTED_BASE) {
+                out.class("watcher-call-scheduled");
+                let w = crate::hooks::ADOPTED_BASE;
+                let pos = |id: u64, name: &str| r.executed.iter().position(|(i, n)| *i == id && *n == name);
+                let others: Vec<u64> = r.executed.iter().map(|(i, _)| *i).filter(|i| *i != w).collect();
+                if let (Some(we), Some(wx)) = (pos(w, "spec.enter"), pos(w, "spec.exit")) {
+                    if others.iter().any(|o| pos(*o, "spec.enter").is_some_and(|oe| we < oe && oe < wx) || matches!((pos(*o, "spec.enter"), pos(*o, "spec.exit")), (Some(oe), Some(ox)) if oe < we && we < ox)) {
+                        out.class("watcher-call-overlaps-handle-call");
+                    }
+                }
             }
             if overlapped(&r.executed) {
                 out.class("overlapping-updates");
